@@ -51,3 +51,16 @@ def xml_file(name, root):
     with open(p, 'wb') as f:
         f.write(etree.tostring(root, encoding='utf-8', pretty_print=True))
     return p
+
+
+def fresh_state():
+    """module-level state of the code under test as right after import (a fresh process): symbolic runs put back what the import hook
+    remembered; concrete replays remember the containers of every depccg module at the first call (call it before touching the code)"""
+    import sys
+    from engines.pysym import state
+    if not SYMBOLIC:
+        for name, m in list(sys.modules.items()):
+            if (name == 'depccg' or name.startswith('depccg.')) and m is not None:
+                state.register(m)
+    state.restore()
+
